@@ -48,7 +48,25 @@ FixedRelOK(r, c) == \A q1 \in 2..(c.a[1] + 1), q2 \in 2..(c.a[1] + 1), dim \in {
 Holds(r, rep, c) == CASE c.kind = 1 -> SepOK(r, c) [] c.kind = 2 -> AlignOK(r, c) [] c.kind = 3 -> BoundOK(r, c)
                       [] c.kind = 4 -> MultiSepOK(r, rep, c) [] c.kind = 5 -> DistOK(r, rep, c) [] c.kind = 6 -> FixedRelOK(r, c)
 KindName(kd) == CASE kd = 1 -> "separation" [] kd = 2 -> "alignment" [] kd = 3 -> "boundary" [] kd = 4 -> "multi-separation" [] kd = 5 -> "distribution" [] kd = 6 -> "fixed-relative"
+\* makeFeasible() alone (flag 32) records nothing in the unsatisfiable lists (run() does), so it can only be judged where nothing needs
+\* reporting: when the user's constraints are separations without equalities and have no positive cycle in either dimension, they are
+\* jointly satisfiable together with any non-overlap requirement (spread the nodes further), and then all of them must hold afterwards
+RECURSIVE Relax(_, _, _, _)
+Relax(r, dim, dist, k) == IF k = 0 THEN dist
+                          ELSE Relax(r, dim, [v \in 0..(r.n - 1) |->
+                                   LET inc == {dist[r.cons[i].a[1]] + r.cons[i].a[3] : i \in {i \in DOMAIN r.cons : r.cons[i].dim = dim /\ r.cons[i].a[2] = v}} \cup {dist[v]}
+                                   IN  CHOOSE x \in inc : \A y \in inc : x >= y], k - 1)
+NoPositiveCycle(r, dim) == LET d0 == [v \in 0..(r.n - 1) |-> 0]
+                               dn == Relax(r, dim, d0, r.n)
+                           IN  Relax(r, dim, dn, 1) = dn
+OnlyPlainSeparations(r) == \A i \in DOMAIN r.cons : r.cons[i].kind = 1 /\ r.cons[i].a[4] = 0
+MakeFeasibleOnly(r) == (r.flags \div 32) % 2 = 1
 C07Tags(r) ==
+    IF ~r.thrown /\ MakeFeasibleOnly(r) THEN
+        (IF OnlyPlainSeparations(r) /\ NoPositiveCycle(r, 0) /\ NoPositiveCycle(r, 1)
+            /\ (\A i \in 1..r.n : r.pos[i][1] \notin {SENT, FAR} /\ r.pos[i][2] \notin {SENT, FAR})
+            /\ \E i \in DOMAIN r.cons : ~SepOK(r, r.cons[i])
+         THEN {<<"makeFeasible-leaves-a-satisfiable-constraint-violated", "separation">>} ELSE {}) ELSE
     IF r.thrown THEN {"exception"} ELSE
     LET rep == ToSet(r.reported) IN
     (IF \E i \in 1..r.n : r.pos[i][1] = SENT \/ r.pos[i][2] = SENT THEN {"non-finite-coordinate"} ELSE
